@@ -146,3 +146,21 @@ Fixpoint run_tcp_table (o : opts) (now : Z) (t : table) (conns : list bytes) : r
   | [] => Ok t
   | bs :: rest => t' <- read_lines o now t bs ;; run_tcp_table o now t' rest
   end.
+
+(** The loop with its retry pauses.  Each iteration is one connection attempt: it is refused, or it
+    delivers some bytes and then ends either cleanly (EOF: read_lines returns Ok, the loop reconnects
+    at once) or with a read error such as a reset (read_lines returns Err, the loop sleeps 5 s).
+    The observable schedule is the list of pauses (seconds) the loop makes after each attempt. *)
+Inductive conn_event := Refused | Delivered (bs : bytes) (clean : bool).
+
+Definition pause_after (e : conn_event) : N :=
+  match e with Delivered _ true => 0 | _ => 5 end.
+
+Fixpoint run_tcp_loop (o : opts) (now : Z) (t : table) (evs : list conn_event) : res (table * list N) :=
+  match evs with
+  | [] => Ok (t, [])
+  | e :: rest =>
+      t' <- match e with Refused => Ok t | Delivered bs _ => read_lines o now t bs end ;;
+      '(t2, ps) <- run_tcp_loop o now t' rest ;;
+      Ok (t2, pause_after e :: ps)
+  end.
